@@ -436,6 +436,13 @@ pub fn eval(c: &ImgCase) -> CaseOut {
         }
         Caught::Ok(Err(e)) => {
             if e.contains("NotEnoughSpace") {
+                // legitimate only when space really is short: a (nearly) taken table, or a fixed root directory without
+                // room for a long name. No mutation here needs more than a few clusters.
+                let fixed_root_short = g.width != 32 && dec.root.used_slots + 24 > dec.root.total_slots;
+                if dec.free >= 64 && !fixed_root_short {
+                    out.violation = Some(format!("{} failed with NotEnoughSpace although the table has {} free clusters (FS-info count stored on the volume: {:?})", mu.what, dec.free, stored_free));
+                    return out;
+                }
                 out.classes.insert("mutation_out_of_space".into(), 1);
                 return out;
             }
